@@ -9,6 +9,7 @@ import (
 	"path/filepath"
 	"reflect"
 	"strings"
+	"time"
 
 	"github.com/datastax/go-cassandra-native-protocol/datacodec"
 	"github.com/datastax/go-cassandra-native-protocol/primitive"
@@ -83,6 +84,7 @@ type numCodec struct {
 	lo, hi *big.Int // nil = unbounded
 	toFn   string   // name of the convertTo* table
 	fromFn string
+	temporal bool   // date/time/timestamp: numbers go through the integer tables; strings are layouts, not numbers
 }
 
 func candidates(r *lp.Rng) []*big.Int {
@@ -145,12 +147,16 @@ func runC13(res *lp.Result) {
 	ask := func(l, want, d string) { lines = append(lines, l); expect = append(expect, want); descr = append(descr, d) }
 	i64lo, i64hi := bi("-9223372036854775808"), bi("9223372036854775807")
 	codecs := []numCodec{
-		{"bigint", datacodec.Bigint, i64lo, i64hi, "convertToInt64", "convertFromInt64"},
-		{"counter", datacodec.Counter, i64lo, i64hi, "convertToInt64", "convertFromInt64"},
-		{"int", datacodec.Int, big.NewInt(math.MinInt32), big.NewInt(math.MaxInt32), "convertToInt32", "convertFromInt32"},
-		{"smallint", datacodec.Smallint, big.NewInt(math.MinInt16), big.NewInt(math.MaxInt16), "convertToInt16", "convertFromInt16"},
-		{"tinyint", datacodec.Tinyint, big.NewInt(math.MinInt8), big.NewInt(math.MaxInt8), "convertToInt8", "convertFromInt8"},
-		{"varint", datacodec.Varint, nil, nil, "convertToBigInt", "convertFromBigInt"},
+		{"bigint", datacodec.Bigint, i64lo, i64hi, "convertToInt64", "convertFromInt64", false},
+		{"counter", datacodec.Counter, i64lo, i64hi, "convertToInt64", "convertFromInt64", false},
+		{"int", datacodec.Int, big.NewInt(math.MinInt32), big.NewInt(math.MaxInt32), "convertToInt32", "convertFromInt32", false},
+		{"smallint", datacodec.Smallint, big.NewInt(math.MinInt16), big.NewInt(math.MaxInt16), "convertToInt16", "convertFromInt16", false},
+		{"tinyint", datacodec.Tinyint, big.NewInt(math.MinInt8), big.NewInt(math.MaxInt8), "convertToInt8", "convertFromInt8", false},
+		{"varint", datacodec.Varint, nil, nil, "convertToBigInt", "convertFromBigInt", false},
+		// the temporal types as numbers: milliseconds since the Epoch, nanoseconds of the day, days since the Epoch
+		{"timestamp", datacodec.Timestamp, i64lo, i64hi, "convertToInt64", "convertFromInt64", true},
+		{"time", datacodec.Time, i64lo, i64hi, "convertToInt64", "convertFromInt64", true},
+		{"date", datacodec.Date, big.NewInt(math.MinInt32), big.NewInt(math.MaxInt32), "convertToInt32", "convertFromInt32", true},
 	}
 	kinds := numKinds()
 	cands := candidates(rng)
@@ -217,6 +223,9 @@ func runC13(res *lp.Result) {
 				if _, isBig := src.(*big.Int); isBig && !hasEntry(c.toFn, "big") {
 					continue
 				}
+				if _, isStr := src.(string); isStr && c.temporal {
+					continue
+				}
 				id := fmt.Sprintf("encode %s <- %T %s", c.name, src, v)
 				res.Case(id, v.Sign() != 0)
 				enc, err := c.codec.Encode(src, v4)
@@ -245,7 +254,13 @@ func runC13(res *lp.Result) {
 			if !inR(v, c.lo, c.hi) {
 				continue
 			}
-			enc, err := c.codec.Encode(v.String(), v4)
+			var enc []byte
+			var err error
+			if c.temporal {
+				enc, err = c.codec.Encode(v.Int64(), v4)
+			} else {
+				enc, err = c.codec.Encode(v.String(), v4)
+			}
 			if err != nil {
 				continue
 			}
@@ -273,11 +288,15 @@ func runC13(res *lp.Result) {
 				}
 			}
 			var s string
+			if c.temporal {
+				continue
+			}
 			if _, derr := c.codec.Decode(enc, &s, v4); derr != nil || s != v.String() {
 				res.Add(lp.Finding{Kind: "violation", What: c.name + " decodes into *string a different number", Input: "decode " + c.name + " -> *string " + v.String(), Impl: s})
 			}
 		}
 	}
+	temporalSources(res, rng)
 	// float / double
 	fbits := []uint64{0, 1 << 63, 0x3FF0000000000000, 0x7FF0000000000000, 0xFFF0000000000000, 0x7FF8000000000001, 1, 0x000FFFFFFFFFFFFF,
 		0x36A0000000000000, 0x47EFFFFFE0000000, 0x47EFFFFFF0000000, 0x3FB999999999999A, 0x3FE0000000000000}
@@ -340,9 +359,156 @@ func runC13(res *lp.Result) {
 			}
 		}
 	}
+	// the [vint] notation the duration components travel in: every length boundary (C03Vint's theorems on the model side)
+	vintChecks(res, rng, ask)
+	// … and through the duration codec itself: months/days/nanos at and around 2^(7k) must come back as they went in
+	for k := 0; k < 63; k++ {
+		for d := int64(-1); d <= 1; d++ {
+			for _, sign := range []int64{1, -1} {
+				x := sign * (int64(1)<<uint(k) + d)
+				var dur datacodec.CqlDuration
+				dur.Nanos = time.Duration(x)
+				if x >= math.MinInt32 && x <= math.MaxInt32 {
+					dur.Months, dur.Days = int32(x), int32(x)
+				}
+				id := fmt.Sprintf("duration months=%d days=%d nanos=%d", dur.Months, dur.Days, int64(dur.Nanos))
+				res.Count("duration/boundaries")
+				enc, err := datacodec.Duration.Encode(dur, primitive.ProtocolVersion5)
+				if err != nil {
+					continue // mixed signs are refused by the codec; not a number conversion
+				}
+				var back datacodec.CqlDuration
+				if _, derr := datacodec.Duration.Decode(enc, &back, primitive.ProtocolVersion5); derr != nil || back != dur {
+					res.Add(lp.Finding{Kind: "violation", What: "duration components do not come back as the numbers that were encoded", Input: id,
+						Impl: fmt.Sprintf("bytes=%x decoded months=%d days=%d nanos=%d err=%v", enc, back.Months, back.Days, int64(back.Nanos), derr)})
+				}
+			}
+		}
+	}
 	finishAsk(res, lines, expect, descr)
 }
 
 type sliceWriter struct{ b []byte }
 
 func (s *sliceWriter) Write(p []byte) (int, error) { s.b = append(s.b, p...); return len(p), nil }
+
+// temporalSources: time.Time and time.Duration handed to the timestamp, date and time codecs, judged against arbitrary-precision
+// arithmetic on what the Go value holds (t.Unix() seconds and t.Nanosecond()): milliseconds = floor((s·10^9+ns)/10^6) must fit
+// int64, days = floor(s/86400) must fit int32, a Duration must lie in [0, 24h) — otherwise an error, never another number.
+func temporalSources(res *lp.Result, rng *lp.Rng) {
+	v4 := primitive.ProtocolVersion4
+	secs := []int64{0, 1, -1, 86399, 86400, -86400, -86401, 1 << 31, -(1 << 31), 1 << 32,
+		9223372036854775, 9223372036854776, 9223372036854777, -9223372036854775, -9223372036854776, -9223372036854777,
+		185542587187199, 185542587187200, -185542587100800, -185542587100801, // around the int32 day range
+		18446744073709551, 18446744073709552, -18446744073709551, -18446744073709552, // 2^64 ms
+		36893488147419103, -36893488147419104, 1 << 55, -(1 << 55), 1 << 60, -(1 << 60), 1<<62 - 1, -(1 << 62)}
+	for i := 0; i < 40; i++ {
+		secs = append(secs, int64(rng.U64())>>uint(1+rng.Intn(40)))
+	}
+	nanos := []int64{0, 1, 999999, 1000000, 191999999, 192000000, 807000000, 807999999, 808000000, 999999999}
+	decodeI64 := func(c datacodec.Codec, enc []byte) (int64, error) {
+		var back int64
+		_, err := c.Decode(enc, &back, v4)
+		return back, err
+	}
+	for _, sec := range secs {
+		for _, ns := range nanos {
+			for zi, zone := range []*time.Location{time.UTC, time.FixedZone("+0530", 19800)} {
+				t := time.Unix(sec, ns).In(zone)
+				hs, hn := big.NewInt(t.Unix()), big.NewInt(int64(t.Nanosecond())) // what the value holds
+				total := new(big.Int).Add(new(big.Int).Mul(hs, big.NewInt(1e9)), hn)
+				ms := new(big.Int).Div(total, big.NewInt(1e6)) // Euclidean = floor for a positive divisor
+				days := new(big.Int).Div(hs, big.NewInt(86400))
+				for pi, src := range []interface{}{t, &t} {
+					if zi+pi == 2 {
+						continue
+					}
+					id := fmt.Sprintf("encode timestamp <- %T unix seconds %d nanos %d zone %s", src, t.Unix(), t.Nanosecond(), zone)
+					res.Case(id, true)
+					res.Count("temporal/timestamp")
+					enc, err := datacodec.Timestamp.Encode(src, v4)
+					if err != nil && ms.IsInt64() {
+						res.Add(lp.Finding{Kind: "violation", What: "timestamp refuses a time.Time whose milliseconds since the Epoch fit 64 bits", Input: id, Impl: firstWords(err.Error())})
+					} else if err == nil {
+						if back, derr := decodeI64(datacodec.Timestamp, enc); derr != nil || !ms.IsInt64() || back != ms.Int64() {
+							res.Add(lp.Finding{Kind: "violation", What: "timestamp encodes a time.Time to bytes denoting a different number of milliseconds (wrapped or truncated)", Input: id,
+								Impl: fmt.Sprintf("bytes=%x = %d ms, the time is %s ms from the Epoch", enc, back, ms)})
+						}
+					}
+					id = fmt.Sprintf("encode date <- %T unix seconds %d zone %s", src, t.Unix(), zone)
+					res.Case(id, true)
+					res.Count("temporal/date")
+					enc, err = datacodec.Date.Encode(src, v4)
+					fits := days.IsInt64() && days.Int64() >= math.MinInt32 && days.Int64() <= math.MaxInt32
+					if err != nil && fits {
+						res.Add(lp.Finding{Kind: "violation", What: "date refuses a time.Time whose days since the Epoch fit 32 bits", Input: id, Impl: firstWords(err.Error())})
+					} else if err == nil {
+						if back, derr := decodeI64(datacodec.Date, enc); derr != nil || !fits || back != days.Int64() {
+							res.Add(lp.Finding{Kind: "violation", What: "date encodes a time.Time to bytes denoting a different day (wrapped or truncated)", Input: id,
+								Impl: fmt.Sprintf("bytes=%x = day %d, the time is on day %s", enc, back, days)})
+						}
+					}
+					// time: the clock of the instant in UTC
+					u := t.UTC()
+					clock := int64(u.Hour())*3600e9 + int64(u.Minute())*60e9 + int64(u.Second())*1e9 + int64(u.Nanosecond())
+					id = fmt.Sprintf("encode time <- %T unix seconds %d nanos %d zone %s", src, t.Unix(), t.Nanosecond(), zone)
+					res.Count("temporal/time")
+					if enc, err = datacodec.Time.Encode(src, v4); err != nil {
+						res.Add(lp.Finding{Kind: "violation", What: "time refuses a time.Time", Input: id, Impl: firstWords(err.Error())})
+					} else if back, derr := decodeI64(datacodec.Time, enc); derr != nil || back != clock {
+						res.Add(lp.Finding{Kind: "violation", What: "time encodes a time.Time to another nanosecond of the day", Input: id, Impl: fmt.Sprintf("%d, the UTC clock reads %d", back, clock)})
+					}
+				}
+			}
+		}
+	}
+	// time.Duration → time: [0, 24h) or an error; time → time.Duration / time.Time: the same number or an error
+	day := int64(86400e9)
+	for _, d := range []int64{0, 1, -1, day - 1, day, day + 1, -day, math.MaxInt64, math.MinInt64, 1 << 32, 1 << 46, 86399999999999, 86400000000000} {
+		id := fmt.Sprintf("encode time <- time.Duration %d", d)
+		res.Case(id, true)
+		res.Count("temporal/duration")
+		enc, err := datacodec.Time.Encode(time.Duration(d), v4)
+		fits := d >= 0 && d < day
+		if err != nil && fits {
+			res.Add(lp.Finding{Kind: "violation", What: "time refuses a time.Duration within the day", Input: id, Impl: firstWords(err.Error())})
+		} else if err == nil {
+			if back, derr := decodeI64(datacodec.Time, enc); derr != nil || !fits || back != d {
+				res.Add(lp.Finding{Kind: "violation", What: "time encodes a time.Duration to bytes denoting a different number", Input: id, Impl: fmt.Sprintf("bytes=%x = %d", enc, back)})
+			}
+		}
+		enc, _ = datacodec.Time.Encode(d, v4) // as a plain number: any int64
+		var dd time.Duration
+		if _, derr := datacodec.Time.Decode(enc, &dd, v4); derr == nil && int64(dd) != d {
+			res.Add(lp.Finding{Kind: "violation", What: "time decodes into *time.Duration a different number", Input: fmt.Sprintf("decode time -> *time.Duration %d", d), Impl: fmt.Sprint(int64(dd))})
+		}
+		var tt time.Time
+		if _, derr := datacodec.Time.Decode(enc, &tt, v4); derr == nil {
+			u := tt.UTC()
+			clock := int64(u.Hour())*3600e9 + int64(u.Minute())*60e9 + int64(u.Second())*1e9 + int64(u.Nanosecond())
+			if clock != d {
+				res.Add(lp.Finding{Kind: "violation", What: "time decodes into *time.Time a different clock reading", Input: fmt.Sprintf("decode time -> *time.Time %d", d), Impl: fmt.Sprint(clock)})
+			}
+		}
+	}
+	// timestamp / date → time.Time: the instant must be exactly the number decoded
+	for _, ms := range []int64{0, 1, -1, 999, -999, -1000, -1001, math.MaxInt64, math.MinInt64, math.MaxInt64 - 807, 1 << 53, -(1 << 53)} {
+		enc, _ := datacodec.Timestamp.Encode(ms, v4)
+		var tt time.Time
+		res.Count("temporal/timestamp-decode")
+		if _, derr := datacodec.Timestamp.Decode(enc, &tt, v4); derr == nil {
+			total := new(big.Int).Add(new(big.Int).Mul(big.NewInt(tt.Unix()), big.NewInt(1e9)), big.NewInt(int64(tt.Nanosecond())))
+			if total.Cmp(new(big.Int).Mul(big.NewInt(ms), big.NewInt(1e6))) != 0 {
+				res.Add(lp.Finding{Kind: "violation", What: "timestamp decodes into *time.Time a different instant", Input: fmt.Sprintf("decode timestamp -> *time.Time %d ms", ms), Impl: tt.String()})
+			}
+		}
+	}
+	for _, dy := range []int64{0, 1, -1, math.MaxInt32, math.MinInt32, 19000, -719162} {
+		enc, _ := datacodec.Date.Encode(dy, v4)
+		var tt time.Time
+		res.Count("temporal/date-decode")
+		if _, derr := datacodec.Date.Decode(enc, &tt, v4); derr == nil && tt.Unix() != dy*86400 {
+			res.Add(lp.Finding{Kind: "violation", What: "date decodes into *time.Time a different day", Input: fmt.Sprintf("decode date -> *time.Time day %d", dy), Impl: tt.String()})
+		}
+	}
+}
